@@ -80,9 +80,25 @@ def ctx_obj(ctx, **kw):
         ci = None
     attrs = {"working_dir": "/p", "config": {}, "backend": "B", "workflow_file": "workflow.py", "workflow_obj": "gwf"}
     attrs.update(kw)
+    if type(attrs.get("config")) is dict:
+        attrs["config"] = config_obj(ctx, attrs["config"], str(attrs.get("working_dir")))
     if ci is not None:
         attrs["__class__"] = ci
     return Obj("ctx", **attrs)
+
+
+def config_obj(ctx, user, working_dir="/p"):
+    """The project configuration as `cli.main` builds it: an instance of the package's configuration class holding the user's keys layered over the built-in
+    defaults (so get / [] / get_namespace / items are the package's own).  If the package has no such class any more, the plain mapping."""
+    from collections import ChainMap
+    try:
+        ci = ctx.index.cls("gwf.conf:FileConfig")
+        defaults = ctx.ev.eval(ast.parse("CONFIG_DEFAULTS", mode="eval").body, ctx.index.repo.module("gwf.conf"))
+        if not isinstance(defaults, dict) or not {"path", "data"} <= {f_[0] for f_ in ci.fields}:
+            return user
+    except Exception:
+        return user
+    return make_instance(ctx, ci, "config", path=working_dir + "/.gwfconf.json", data=ChainMap(dict(user), dict(defaults)))
 
 
 def template_obj(ctx, **kw):
@@ -494,9 +510,10 @@ def load_path(ctx, ckey, attr):
     return None
 
 
-def eval_call_failure(ctx, err_text="sbatch: error: Batch job submission failed", ok_text="some warning"):
-    """backends.utils.call over the four (exit status, 'error:' on stderr) combinations -> 'raise <kind>' / returned value."""
-    fn = ctx.index.func("gwf.backends.utils:call")
+def eval_call_failure(ctx, err_text="sbatch: error: Batch job submission failed", ok_text="some warning", fn=None):
+    """backends.utils.call (or a sibling runner `fn`) over the four (exit status, 'error:' on stderr) combinations -> 'raise <kind>' / returned value."""
+    fn = fn or ctx.index.func("gwf.backends.utils:call")
+    takes_input = "input" in fn.all_param_names()
     out = {}
     for rc in (0, 1):
         for err in (False, True):
@@ -518,7 +535,7 @@ def eval_call_failure(ctx, err_text="sbatch: error: Batch job submission failed"
                      "attr:wait": lambda recv, *a, _rc=rc, **k: _rc, "attr:poll": lambda recv, _rc=rc: _rc}
             interp = PureInterp(ctx, hooks=hooks)
             try:
-                out[(rc != 0, err)] = interp.call(fn, ("sbatch", "--parsable"), {"input": tok("SCRIPT")})
+                out[(rc != 0, err)] = interp.call(fn, ("sbatch", "--parsable"), {"input": tok("SCRIPT")} if takes_input else {})
             except Raised as exc:
                 out[(rc != 0, err)] = f"raise {exc.kind}"
             except Unsupported as exc:
@@ -657,6 +674,75 @@ def eval_call_once(ctx):
     return diffs, None
 
 
+def eval_mutating_commands_unlimited(ctx):
+    """Every cluster backend's submit_target and cancel_job evaluated down to subprocess, with every optional setting of the backend switched on (30): the command that
+    changes the scheduler's state must be waited for - through whichever of the package's command runners it goes.  -> (differences, n evaluated, unsupported reason)."""
+    answers = {"sbatch": "4242\n", "qsub": "4242\n", "bsub": "Job <4242> is submitted to default queue <normal>.\n"}
+    diffs, n = [], 0
+    for mod, cname, exe, cexe in (("gwf.backends.slurm", "SlurmOps", "sbatch", "scancel"), ("gwf.backends.sge", "SGEOps", "qsub", "qdel"), ("gwf.backends.lsf", "LSFOps", "bsub", "bkill")):
+        ci = ctx.index.cls(f"{mod}:{cname}")
+        for meth in ("submit_target", "cancel_job"):
+            m = ctx.index.method(ci, meth)
+            if m is None:
+                continue
+            ev = []
+            started = []
+
+            def base(cmd):
+                c0 = cmd[0] if isinstance(cmd, (list, tuple)) and cmd else cmd
+                return str(c0).rsplit("/", 1)[-1]
+
+            def h_popen(cmd, *a, **k):
+                started.append(base(cmd))
+                return Obj("proc", returncode=0, args=cmd, stdin=Obj("pipe"), stdout=Obj("pipe"), stderr=Obj("pipe"), pid=4321)
+
+            def h_comm(recv, *a, **k):
+                t = k.get("timeout", a[1] if len(a) > 1 else None)
+                if t is not None:
+                    ev.append(("limit", started[-1] if started else "?"))
+                return (answers.get(started[-1] if started else "", ""), "")
+
+            def h_wait(recv, *a, **k):
+                t = k.get("timeout", a[0] if a else None)
+                if t is not None:
+                    ev.append(("limit", started[-1] if started else "?"))
+                return 0
+
+            def h_run(cmd, *a, **k):
+                started.append(base(cmd))
+                if k.get("timeout") is not None:
+                    ev.append(("limit", base(cmd)))
+                return Obj("completed", returncode=0, stdout=answers.get(base(cmd), ""), stderr="", args=cmd)
+            hooks = {"shutil.which": lambda name, *a, **k: "/usr/bin/" + str(name), "subprocess.Popen": h_popen, "subprocess.run": h_run, "attr:communicate": h_comm,
+                     "subprocess.check_output": lambda cmd, *a, **k: h_run(cmd, *a, **k).stdout, "subprocess.check_call": lambda cmd, *a, **k: h_run(cmd, *a, **k).returncode,
+                     "attr:wait": h_wait, "attr:poll": lambda recv: 0, "attr:kill": lambda recv, *a: None, "attr:terminate": lambda recv, *a: None,
+                     "attr:compile_script": lambda recv, t: "SCRIPT", "builtins.open": lambda p, mode="r", *a, **k: Obj("file", path=str(p), mode=mode),
+                     "attr:write": lambda recv, *a: None, "time.sleep": lambda *a: None,
+                     "signal.alarm": lambda secs=0: ev.append(("limit", "SIGALRM")) if secs else None,
+                     "signal.setitimer": lambda which, secs=0, *a: ev.append(("limit", "SIGALRM")) if secs else None,
+                     "threading.Timer": lambda *a, **k: (ev.append(("limit", "threading.Timer")), Obj("timer", start=lambda: None, cancel=lambda: None))[1]}
+            interp = PureInterp(ctx, hooks=hooks)
+            interp.max_depth = 10
+            obj = make_instance(ctx, ci, "ops", working_dir=PROJ, log_mode="full", accounting_enabled=True, target_defaults={})
+            for fname, _ann, _v in ci.fields:
+                if fname not in ("working_dir", "target_defaults", "log_mode", "accounting_enabled") and obj.__dict__["_attrs"].get(fname, Ellipsis) is None:
+                    setattr(obj, fname, 30)
+            args = (target_obj(ctx, name="T", options={}, spec="x", working_dir="/w"), []) if meth == "submit_target" else ("4242",)
+            try:
+                interp.call(m, args, {}, self_obj=obj)
+            except Raised:
+                pass
+            except Unsupported as exc:
+                return diffs, n, f"{cname}.{meth}: {exc}"
+            n += 1
+            want = exe if meth == "submit_target" else cexe
+            for _k, what in ev:
+                diffs.append(f"{cname}.{meth} runs `{what if what in (exe, cexe) else want}` under a time limit ({what}): the scheduler may have carried the command out although it had not "
+                             "answered yet - giving up on it does not undo it, so a job can exist (or be gone) without any state file knowing; only read-only queries may be given up on")
+                break
+    return diffs, n, None
+
+
 def eval_garbled_query(ctx, mod, cname):
     """<Ops>.get_job_states when the query command exits 0 with output cut off half-way (busy controller): must raise, never an (empty) state map."""
     ci = ctx.index.cls(f"{mod}:{cname}")
@@ -669,7 +755,7 @@ def eval_garbled_query(ctx, mod, cname):
         return garbage.get(exe, "")
     interp = PureInterp(ctx, hooks={"gwf.backends.utils.call": h_call})
     interp.max_depth = 10
-    obj = Obj("ops", working_dir=PROJ, log_mode="full", accounting_enabled=True, target_defaults={}, **{"__class__": ci})
+    obj = make_instance(ctx, ci, "ops", working_dir=PROJ, log_mode="full", accounting_enabled=True, target_defaults={})
     try:
         res = interp.call(m, (["1", "2"],), {}, self_obj=obj)
         return ("returned", res, seen), m
@@ -685,7 +771,7 @@ def eval_cancel_job(ctx, mod, cname):
     calls = []
     interp = PureInterp(ctx, hooks={"gwf.backends.utils.call": lambda exe, *a, **k: calls.append((exe,) + tuple(a)) or ""})
     try:
-        interp.call(m, (tok("JOB"),), {}, self_obj=Obj("ops", working_dir=PROJ, **{"__class__": ci}))
+        interp.call(m, (tok("JOB"),), {}, self_obj=make_instance(ctx, ci, "ops", working_dir=PROJ))
     except (Raised, Unsupported) as exc:
         return f"<{exc}>", m
     return calls, m
@@ -729,9 +815,9 @@ def eval_local_job_states(ctx):
     L = lambda n: EnumVal("gwf.backends.local.LocalStatus", n)
     wire = {"1": L("RUNNING"), "2": L("FAILED"), "7": L("KILLED"), "9": L("COMPLETED")}
     client = Obj("client")
-    interp = PureInterp(ctx, hooks={"attr:status": lambda recv, *a: dict(wire)})
+    interp = PureInterp(ctx, hooks={"attr:status": lambda recv, *a, **k: dict(wire)})
     try:
-        got = interp.call(m, ([1, 7, 9],), {}, self_obj=Obj("ops", _client=client, **{"__class__": ci}))
+        got = interp.call(m, ([1, 7, 9],), {}, self_obj=make_instance(ctx, ci, "ops", _client=client))
     except (Raised, Unsupported) as exc:
         return f"<{exc}>", m
     return got, m
@@ -892,7 +978,7 @@ def eval_slurm_states(ctx, n_ids, accounting, fail=None):
 
     interp = PureInterp(ctx, hooks={"gwf.backends.utils.call": fake_call})
     interp.max_depth = 10
-    obj = Obj("ops", working_dir=PROJ, log_mode="full", accounting_enabled=accounting, target_defaults={}, **{"__class__": ci})
+    obj = make_instance(ctx, ci, "ops", working_dir=PROJ, log_mode="full", accounting_enabled=accounting, target_defaults={})
     try:
         res = interp.call(m, (list(ids),), {}, self_obj=obj)
     except (Raised, Unsupported) as exc:
@@ -1411,6 +1497,8 @@ def eval_cancel_command(ctx, patterns=(), force=False, fail=None):
         "gwf.workflow.Workflow.from_context": lambda c: Obj("workflow", targets={t.name: t for t in all_targets}),
         "gwf.Workflow.from_context": lambda c: Obj("workflow", targets={t.name: t for t in all_targets}),
         "gwf.core.Graph.from_targets": lambda *a, **k: graph,
+        "getattr:targets": lambda o: {t.name: t for t in all_targets}, "getattr:dependencies": lambda o: {t: set() for t in all_targets},
+        "getattr:dependents": lambda o: {t: set() for t in all_targets}, "attr:endpoints": lambda recv: set(all_targets),
         "gwf.filtering.filter_names": h_filter,
         "gwf.backends.base.create_backend": h_backend, "gwf.backends.create_backend": h_backend,
         "attr:cancel": h_cancel,
@@ -1588,7 +1676,7 @@ def eval_query_failure(ctx, mod, cname):
 
     interp = PureInterp(ctx, hooks={"gwf.backends.utils.call": failing})
     interp.max_depth = 10
-    obj = Obj("ops", working_dir=PROJ, log_mode="full", accounting_enabled=True, target_defaults={}, **{"__class__": ci})
+    obj = make_instance(ctx, ci, "ops", working_dir=PROJ, log_mode="full", accounting_enabled=True, target_defaults={})
     try:
         res = interp.call(m, (["1", "2"],), {}, self_obj=obj)
         return ("returned", res, seen), m
@@ -1639,6 +1727,12 @@ def eval_server_session(ctx, requests):
         "attr:wait_closed": lambda recv, *a, **k: calls.append(("wait_closed", a, dict(k))),
         "attr:write": lambda recv, *a, **k: calls.append(("write", a, {})),
         "attr:drain": lambda recv, *a, **k: None,
+        # the rest of asyncio.StreamWriter / StreamReader a handler may look at
+        "attr:get_extra_info": lambda recv, name=None, default=None: {"peername": ("127.0.0.1", 50000), "sockname": ("127.0.0.1", 12345)}.get(name, default),
+        "attr:is_closing": lambda recv: any(c[0] == "close:" + getattr(recv, "_name", "?") for c in calls),
+        "attr:at_eof": lambda recv: state["i"] > len(lines),
+        "attr:can_write_eof": lambda recv: True, "attr:write_eof": lambda recv: None,
+        "attr:writelines": lambda recv, data: [calls.append(("write", (d,), {})) for d in data] and None,
         "gwf.backends.local.encode": h_encode,
     }
     interp = PureInterp(ctx, hooks=hooks)
@@ -1728,6 +1822,39 @@ def server_session_witness(ctx):
     return n, diffs, None
 
 
+def model_connection():
+    """A connected socket and the two file objects `makefile` gives, as far as a client may look at them besides reading and writing (which the witness hooks):
+    time-outs, shutdown/close and the `closed` flags follow the socket and io documentation."""
+    sock = Obj("sock", _timeout=None, _closed=False)
+    streams = []
+
+    def mk(name):
+        st = Obj(name, closed=False, name=name, encoding="utf-8", errors="strict", newlines=None)
+        st.close = lambda: setattr(st, "closed", True)
+        st.fileno = lambda: 7
+        st.readable = lambda: name == "reader"
+        st.writable = lambda: name == "writer"
+        st.__enter__ = lambda: st
+        st.__exit__ = lambda *a: setattr(st, "closed", True)
+        streams.append(st)
+        return st
+
+    sock.settimeout = lambda t: setattr(sock, "_timeout", t)
+    sock.gettimeout = lambda: sock._timeout
+    sock.setblocking = lambda flag: setattr(sock, "_timeout", None if flag else 0.0)
+    sock.getblocking = lambda: sock._timeout != 0.0
+    sock.shutdown = lambda how=None: None
+    sock.close = lambda: setattr(sock, "_closed", True)
+    sock.detach = lambda: 7
+    sock.fileno = lambda: -1 if sock._closed else 7
+    sock.setsockopt = lambda *a: None
+    sock.getsockopt = lambda *a: 0
+    sock.getpeername = lambda: ("127.0.0.1", 12345)
+    sock.getsockname = lambda: ("127.0.0.1", 50000)
+    sock.makefile = lambda mode="r", *a, **k: mk("writer" if "w" in mode else "reader")
+    return sock, mk("reader"), mk("writer")
+
+
 def eval_local_client(ctx):
     """LocalOps.submit_target / cancel_job through the real Client methods with the socket streams hooked; returns the requests sent and results."""
     import json as _json
@@ -1747,8 +1874,9 @@ def eval_local_client(ctx):
         "attr:flush": lambda recv: flushed.append(("flush",)),
         "attr:readline": lambda recv, *a: answers.pop(0) if answers else "",
     }
-    client = Obj("client", sock=Obj("sock"), reader=Obj("reader"), writer=Obj("writer"), **{"__class__": cl_ci})
-    ops = Obj("ops", working_dir=PROJ, host="H", port=1, target_defaults={}, _client=client, **{"__class__": ops_ci})
+    sock, reader, writer = model_connection()
+    client = make_instance(ctx, cl_ci, "client", sock=sock, reader=reader, writer=writer)
+    ops = make_instance(ctx, ops_ci, "ops", working_dir=PROJ, host="H", port=1, target_defaults={}, _client=client)
     interp = PureInterp(ctx, hooks=hooks)
     interp.max_depth = 8
     out = {}
@@ -1863,7 +1991,7 @@ def local_client_witness(ctx):
     return 3, diffs, None
 
 
-def eval_enqueue(ctx):
+def eval_enqueue(ctx, args=("N", "S", "/w", 5, [1, 2]), states=None):
     """Scheduler.enqueue_task evaluated with a fresh id 7: what is registered and what the worker coroutine is started with."""
     idx = ctx.index
     ci = idx.cls("gwf.backends.local:Scheduler")
@@ -1876,13 +2004,22 @@ def eval_enqueue(ctx):
 
     hooks = {"attr:try_handle_task": h_task, "asyncio.create_task": lambda coro, **k: Obj("task", coro=coro),
              "asyncio.ensure_future": lambda coro, **k: Obj("task", coro=coro)}
-    sched = Obj("scheduler", tasks={}, task_states={}, tid_generator=iter([7, 8, 9]), **{"__class__": ci})
+    if states is None:
+        # the prerequisites a request names are tasks the pool accepted earlier (ids below the fresh one)
+        states = {d: EnumVal("gwf.backends.local.LocalStatus", "RUNNING" if i % 2 == 0 else "SUBMITTED") for i, d in enumerate(args[4] or []) if isinstance(d, int)}
+    def _task(st):
+        fin = getattr(st, "member", None) not in ("RUNNING", "SUBMITTED", None)      # the worker task of a task in a final state has finished
+        return Obj("task", done=lambda: fin, cancelled=lambda: getattr(st, "member", None) == "CANCELLED", result=lambda: None, exception=lambda: None)
+    before_t = {k: _task(v) for k, v in states.items()}
+    sched = Obj("scheduler", tasks=dict(before_t), task_states=dict(states), tid_generator=iter([7, 8, 9]), **{"__class__": ci})
     interp = PureInterp(ctx, hooks=hooks)
     try:
-        ret = interp.call(m, ("N", "S", "/w", 5, [1, 2]), {}, self_obj=sched)
+        ret = interp.call(m, tuple(args), {}, self_obj=sched)
     except (Raised, Unsupported) as exc:
         return {"error": f"{type(exc).__name__}: {exc}"}, m
-    return {"ret": ret, "tasks": dict(sched.tasks), "states": dict(sched.task_states), "started": started}, m
+    # (what the call added to / changed in the tables)
+    return {"ret": ret, "tasks": {k: v for k, v in sched.tasks.items() if before_t.get(k) is not v},
+            "states": {k: v for k, v in sched.task_states.items() if k not in states or states[k] != v}, "started": started}, m
 
 
 # --------------------------------------------------------------------------- find_workflow on a symbolic directory tree
@@ -2882,7 +3019,18 @@ def _scheduler_answer(exe, args, code, job="4242"):
         row = delim.join(job if c == "jobid" else code if c == "state" else "x" for c in cols)
         return row + ("|" if "--parsable" in args or "-p" in args else "") + "\n"
     if exe == "bjobs":
-        return code + "\n"
+        # one line per job LSF still knows, with the columns `-o` asks for (a job it has forgotten gets no line: "Job <id> is not found" goes to stderr)
+        fmt = args[args.index("-o") + 1] if "-o" in args and args.index("-o") + 1 < len(args) else "jobid user stat queue from_host exec_host job_name submit_time"
+        delim, cols = " ", []
+        for c in fmt.replace("delimiter=", " delimiter=").split():
+            if c.startswith("delimiter="):
+                delim = c[len("delimiter="):].strip("'\"")
+            else:
+                cols.append(c.split(":")[0].lower())
+        out = [] if "-noheader" in args else [delim.join(c.upper() for c in cols)]
+        if code != "":
+            out.append(delim.join(job if c in ("jobid", "id") else code if c == "stat" else "x" for c in cols))
+        return "\n".join(out) + "\n" if out else ""
     if exe == "qstat":
         return ("<?xml version='1.0'?><job_info><queue_info><job_list state='x'><JB_job_number>%s</JB_job_number><state>%s</state></job_list>"
                 "</queue_info><job_info><job_list state='x'><JB_job_number>777</JB_job_number><state>qw</state></job_list></job_info></job_info>") % (job, code)
@@ -2901,7 +3049,7 @@ def eval_state_code(ctx, mod, cname, method, code, accounting=True):
 
     interp = PureInterp(ctx, hooks={"gwf.backends.utils.call": fake_call})
     interp.max_depth = 12
-    obj = Obj("ops", working_dir=PROJ, log_mode="full", accounting_enabled=accounting, target_defaults={}, **{"__class__": ci})
+    obj = make_instance(ctx, ci, "ops", working_dir=PROJ, log_mode="full", accounting_enabled=accounting, target_defaults={})
     try:
         res = interp.call(m, (["4242"],), {}, self_obj=obj)
     except Raised as exc:
@@ -3563,7 +3711,7 @@ def eval_submit_ids(ctx):
         hooks = {"gwf.backends.utils.call": lambda e, *a, **k: answers.get(e, ""), "attr:compile_script": lambda recv, t: "SCRIPT",
                  "builtins.open": lambda p, mode="r", *a, **k: Obj("file", path=str(p), mode=mode), "attr:write": lambda recv, *a: None}
         interp = PureInterp(ctx, hooks=hooks)
-        obj = Obj("ops", working_dir=PROJ, log_mode="full", accounting_enabled=True, target_defaults={}, **{"__class__": ci})
+        obj = make_instance(ctx, ci, "ops", working_dir=PROJ, log_mode="full", accounting_enabled=True, target_defaults={})
         try:
             out[cname] = (interp.call(m, (target_obj(ctx, name="T", options={}, spec="x", working_dir="/w"), []), {}, self_obj=obj), m)
         except (Raised, Unsupported) as exc:
